@@ -116,6 +116,20 @@ def shortcut_cases(rnd, n, prefix="PK"):
             args = rnd.choice(["f, c_", "c_, f"])
             impl = f"c_ = {cnd}; m_ = ndx.{fn}({args}); m_[...] = {not fv}; out = [m_, ndx.where(c_, {x}, {y})]"
             subs = [{"names": ["f"]}, {"names": ["f", "a", "b"]}, {"names": ["a", "b"]}, {"names": ["a"]}]
+        if d != "bool" and rnd.random() < 0.2:
+            # where() with a one-element condition DERIVED from an input flag (it has a value only when the flag is a
+            # constant and onnxruntime evaluates it), operands of one static shape; the result is then updated in
+            # place (or an operand is) and everything is used again: no aliasing may appear in any partition
+            fv = rnd.choice([True, False])
+            sh_ = [rnd.choice([2, 3])] * rnd.randint(1, 2)
+            inputs = {"a": ops.tensor(rnd, d, sh_, "small"), "b": ops.tensor(rnd, d, sh_, "small"),
+                      "f": {"dtype": "bool", "shape": rnd.choice([[], [1]]), "data": [fv]}}
+            z = ", ".join("0" for _ in sh_)
+            g = rnd.choice(["(ndx.astype(f, ndx.int64) > 0)", "ndx.logical_not(ndx.logical_not(f))", "f"])
+            impl = rnd.choice([f"g_ = {g}; r_ = ndx.where(g_, a, b); r_[{z}] = 9; out = [r_, a + 0, b + 0]",
+                               f"g_ = {g}; u_ = a.copy(); v_ = b.copy(); r_ = ndx.where(g_, u_, v_); u_[{z}] = 9; v_[{z}] = 8; out = [r_, u_, v_]",
+                               f"g_ = {g}; r_ = ndx.where(g_, a, b); r_ += 1; out = [r_ * 2, ndx.where(g_, a, b)]"])
+            subs = [{"names": ["a", "b"]}, {"names": ["f", "a", "b"]}, {"names": ["a"]}, {"names": ["b"]}]
         out.append({"id": f"{prefix}-{i}", "inputs": inputs, "impl": impl, "oracle": None, "tol": [0, 0],
                     "meta": {"func": "shortcut", "dtype": d, "dclass": family.dclass(d)}, "lazy_subsets": subs})
     return out
